@@ -80,6 +80,7 @@ const EDGES: &[(&str, &str, bool)] = &[
     ("range_loop_evicted", "var total = 0; for i in 200..203 { var k = 1; while k <= 12 { var r = (0 - k)..(6 + i); k = k + 1; } churn(); total = total + i; } print(total);", false),
     ("range_in_container_evicted", "var h = [300..303, (400..401, 1)]; var k = 1; while k <= 12 { var r = (0 - k)..7; k = k + 1; } churn(); print(h); print(h[0].iter().collect());", false),
     ("range_map_iter_evicted", "var h = (500..503).iter().map(|x| [x]); var k = 1; while k <= 12 { var r = (0 - k)..8; k = k + 1; } churn(); print(h.collect());", false),
+    ("operators_on_temporaries", "fn mkv() { var r = []; r.push([@O]); return r; } try { print([@O, [1]] + [[2], @O]); } catch e { print(type(e)); } try { print((@O, [1]) + ((3,), @O)); } catch e { print(type(e)); } try { print(mkv() + mkv()); } catch e { print(type(e)); } try { print([[@O]] * 2); } catch e { print(type(e)); } try { print([@O] - [@O]); } catch e { print(type(e)); } print([@O, [1]] == [@O, [1]]); print((@O, (2,)) != (@O, (2,))); try { print(\"s\" + [@O]); } catch e { print(type(e)); } try { print([@O] + \"s\"); } catch e { print(type(e)); } try { print([[@O]] < [[@O]]); } catch e { print(type(e)); }", false),
     ("failed_module_survivor", "var h = nil; try { import \"mthrow\"; } catch e { h = e; } churn(); print(h.describe()); import \"m0\"; churn(); print(h.describe()); print(h.again()());", false),
     ("failed_module_function", "var h = nil; try { import \"mthrow\"; } catch e { h = e.again; } churn(); import \"m0\"; churn(); print(h()());", false),
     ("suspended_fiber_closure", "var g = nil; fn mk() { var f = Fiber.new(|| { var x = @O; g = || x; Fiber.yield(1); return 2; }); f.call(); return f; } var keepf = mk(); churn(); print(g()); print(keepf.call());", false),
